@@ -398,6 +398,7 @@ func c06Body(c *ev.Ctx) {
 		cases = append(cases, c06Case{Kind: "eng-torbe", P: ref.R.String(), Size: 248, V: v.String(), Flip: -1})
 	}
 	runCases(r, "BN254 ReducedModRCheck, 256 digits: every position of the first difference from the modulus, both directions, 4 lower-bit fillings, non-boolean digits, special values (engine + compiled)", cases, c06Eval)
+	runPairIsolation(c, c06Pairs())
 	r.finish("C06")
 	c.Set("rule", "cases = (field, width, digit vector or value, presented output); F_47: compiled R1CS searched with every value of every hint wire; small primes: gnark engine; BN254: engine and compiled system with the independent evaluator; oracle: accept iff all digits boolean and value < modulus (when width >= field bit length) and value fits the width; emitted string = big-endian bytes, LSB-first bits; non-trivial = reference accepts")
 	c.Assume("engine runs use honest hints; the dishonest-prover part is the complete F_47 search and the BN254 compiled runs where ReducedModRCheck is fed adversarial digit vectors directly")
